@@ -112,6 +112,47 @@ Definition create_time (clk : positive) (bt : Z) (data : bytes) : outcome Q :=
   do m <- create_time_mono clk data;
   Val (m + inject_Z bt)%Q.
 
+(* boot_time(): first line of /proc/stat that starts with b'btime':
+   float(line.strip().split()[1]); no such line -> RuntimeError *)
+Fixpoint boot_scan (ls : list bytes) : outcome Z :=
+  match ls with
+  | [] => Exc RuntimeError
+  | l :: r =>
+    if prefixb (bs "btime") l
+    then (do t <- idx (split_ws (strip l)) 1; py_float t)
+    else boot_scan r
+  end.
+Definition boot_time (procstat : bytes) : outcome Z := boot_scan (lines_keep procstat).
+
+(* Process.create_time() with BOOT_TIME not cached yet: ctime first, then boot_time() *)
+Definition create_time_full (clk : positive) (procstat data : bytes) : outcome Q :=
+  do m <- create_time_mono clk data;
+  do bt <- boot_time procstat;
+  Val (m + inject_Z bt)%Q.
+
+(* Process._is_zombie: data[rpar + 2 : rpar + 3] == b"Z" *)
+Definition is_zombie (data : bytes) : bool := beqb (firstn 1 (after_rpar data)) [90].
+
+(* wrap_exceptions around an accessor that reads the stat file through
+   _parse_stat_file.  [first] = what bcat() gives there, [second] = what the re-read in
+   _is_zombie gives, [exists_after] = os.path.exists(<pid>/stat) in the FileNotFoundError branch.
+   PermissionError -> AccessDenied; ProcessLookupError -> Zombie | NoSuchProcess;
+   FileNotFoundError -> Zombie | NoSuchProcess | re-raised. *)
+Inductive sread := SData (b : bytes) | SENOENT | SESRCH | SEACCES.
+Definition wrapped {A} (f : bytes -> outcome A) (first second : sread) (exists_after : bool) : outcome A :=
+  let zombie := match second with SData d => is_zombie d | _ => false end in
+  match first with
+  | SData d => f d
+  | SEACCES => Exc AccessDenied
+  | SESRCH => if zombie then Exc ZombieProcess else Exc NoSuchProcess
+  | SENOENT => if zombie then Exc ZombieProcess
+               else if exists_after then Exc OSError else Exc NoSuchProcess
+  end.
+
+(* psutil/__init__.py Process.status(): try: self._proc.status() except ZombieProcess: STATUS_ZOMBIE *)
+Definition status_public (o : outcome bytes) : outcome bytes :=
+  match o with Exc ZombieProcess => Val status_zombie | _ => o end.
+
 (* psutil.Process(pid) (psutil/__init__.py _init -> _get_ident) calls
    self._proc.create_time(monotonic=True) and lets everything but AccessDenied /
    ZombieProcess / NoSuchProcess propagate: a stat file on which that call fails makes
@@ -136,14 +177,23 @@ Definition terminal_map (devs : list (bytes * option Z)) : list (Z * bytes) :=
 
 (* [masked] = true is the code as it is now (tty_nr &= 0xFFFFFFFF, commit 2414912);
    false = the code before that repair, which looked the signed number up. *)
+(* glob.glob('/dev/tty*') + glob.glob('/dev/pts/*') over the two directory listings
+   (os.scandir order): fnmatch 'tty*' = names that start with "tty"; '*' = every name
+   that does not start with '.'; paths are dirname + '/' + name *)
+Definition glob_tty (dev : list (bytes * option Z)) : list (bytes * option Z) :=
+  map (fun e => (bs "/dev/" ++ fst e, snd e)) (filter (fun e => prefixb (bs "tty") (fst e)) dev).
+Definition hidden (n : bytes) : bool := match n with 46 :: _ => true | _ => false end.
+Definition glob_pts (pts : list (bytes * option Z)) : list (bytes * option Z) :=
+  map (fun e => (bs "/dev/pts/" ++ fst e, snd e)) (filter (fun e => negb (hidden (fst e))) pts).
+Definition get_terminal_map (dev pts : list (bytes * option Z)) : list (Z * bytes) :=
+  terminal_map (glob_tty dev ++ glob_pts pts).
+
 Definition terminal (masked : bool) (devs : list (bytes * option Z)) (data : bytes) : outcome (option bytes) :=
   do st <- parse_stat_file data;
   do n <- py_int (ps_ttynr st);
   let n := if masked then Z.land n 4294967295 else n in
   Val (tmap_get n (terminal_map devs)).
 
-(* Process._is_zombie: data[rpar + 2 : rpar + 3] == b"Z" *)
-Definition is_zombie (data : bytes) : bool := beqb (firstn 1 (after_rpar data)) [90].
 
 (* ------------------------------------------------------ the status file *)
 Definition strip_prefix (p l : bytes) : option bytes :=
@@ -226,7 +276,7 @@ Definition num_ctx_switches (data : bytes) : outcome (Z * Z) :=
   end.
 
 (* ----------------------------------------------------------------- threads *)
-Inductive tfile := TContent (b : bytes) | TGone.   (* open(): content | ENOENT/ESRCH *)
+Inductive tfile := TContent (b : bytes) | TGone | TDenied.   (* open(): content | ENOENT/ESRCH | EACCES/EPERM *)
 
 (* one /proc/<pid>/task/<tid>/stat: strip(), cut after the last ')', split(b' '),
    float(values[11]) / CLOCK_TICKS, float(values[12]) / CLOCK_TICKS *)
@@ -260,6 +310,7 @@ Fixpoint threads_scan (clk : positive) (ents : list (bytes * tfile)) : outcome (
   | [] => Val ([], false)
   | (tid, TGone) :: r =>
     do rest <- threads_scan clk r; Val (fst rest, true)
+  | (tid, TDenied) :: r => Exc AccessDenied   (* PermissionError -> wrap_exceptions *)
   | (tid, TContent c) :: r =>
     do tm <- thread_times clk c;
     do id <- py_int tid;
@@ -280,12 +331,23 @@ Definition threads (clk : positive) (listing : list (bytes * tfile)) (alive : bo
 Definition ppid_of_stat (data : bytes) : outcome Z :=
   do t <- idx (split_ws (after_rpar data)) 1; py_int t.
 
-Fixpoint ppid_map (procs : list (Z * tfile)) : outcome (list (Z * Z)) :=
-  match procs with
+(* pids(): [int(x) for x in os.listdir(procfs) if x.isdigit()]  (names are bytes) *)
+Definition pids (names : list bytes) : list Z := map dec_val (filter is_dec names).
+
+(* ppid_map(): for pid in pids(): open <procfs>/<pid>/stat; FileNotFoundError,
+   ProcessLookupError, PermissionError -> skipped.  The listing pairs each directory
+   name with what open() gives for int(name). *)
+Fixpoint ppid_map (listing : list (bytes * tfile)) : outcome (list (Z * Z)) :=
+  match listing with
   | [] => Val []
-  | (pid, TGone) :: r => ppid_map r
-  | (pid, TContent d) :: r =>
-    do pp <- ppid_of_stat d;
-    do rest <- ppid_map r;
-    Val ((pid, pp) :: rest)
+  | (nm, f) :: r =>
+    if is_dec nm then
+      match f with
+      | TGone | TDenied => ppid_map r
+      | TContent d =>
+        do pp <- ppid_of_stat d;
+        do rest <- ppid_map r;
+        Val ((dec_val nm, pp) :: rest)
+      end
+    else ppid_map r
   end.
